@@ -854,7 +854,9 @@ where
         &mut self,
         cx: &mut Context<'_>,
     ) -> Poll<Result<Option<impl Buf>, StreamError>> {
-        if !self.stream.has_data() {
+        // A DATA frame may be empty (RFC 9114 4.1 / 7.2.1): it carries no body bytes and does not
+        // end the body, so keep looking at the following frames until one has a payload.
+        while !self.stream.has_data() {
             match ready!(self.stream.poll_next(cx)) {
                 Err(frame_stream_error) => {
                     return Poll::Ready(Err(
